@@ -72,8 +72,13 @@ def pyglob(pat, name):
     return fnmatch.fnmatchcase(name, pat)
 
 
+DEVIATIONS = ("useless-u1000-order", "u1000-no-reason", "u1000-name-match")
+
+
 class Spec:
-    """The statement of C10, clause by clause."""
+    """The statement of C10, clause by clause.  `dev` names deviations (defect classes seen
+    in the real code) and is empty for the property itself; a failure of the oracle is
+    attributed to a class iff the statement plus that deviation reproduces the real output."""
     @staticmethod
     def wf(d):
         return d.cmd in ("ignore", "file-ignore") and len(d.args) >= 2
@@ -92,13 +97,41 @@ class Spec:
                 and any(pyglob(c, cat.lower()) for c in Spec.names(d)))
 
     @staticmethod
-    def useless(d, diags, allowed):
-        return (d.cmd == "ignore" and Spec.wf(d)
-                and not any(Spec.suppresses(d, g[0], g[1], g[3]) for g in diags)
-                and any(c != "u1000" and c in allowed for c in Spec.names(d)))
+    def u1000_active(d, dev=()):
+        """does the directive ask the U1000 graph to ignore something"""
+        if "u1000-no-reason" in dev:
+            ok = d.cmd in ("ignore", "file-ignore") and len(d.args) >= 1
+        else:
+            ok = Spec.wf(d)
+        if not ok:
+            return False
+        if "u1000-name-match" in dev:
+            return "U1000" in d.args[0].split(",")
+        return any(pyglob(c, "u1000") for c in Spec.names(d))
 
     @staticmethod
-    def filter(use_success, allowed, diags, dirs):
+    def u1000_suppresses(d, file, line, dev=()):
+        return Spec.u1000_active(d, dev) and file == d.npos[0] and (d.cmd == "file-ignore" or line == d.npos[1])
+
+    @staticmethod
+    def could_have_matched(d, allowed, dev=()):
+        if "useless-u1000-order" in dev:
+            for c in Spec.names(d):
+                if c == "u1000":
+                    return False
+                if c in allowed:
+                    return True
+            return False
+        return any(c != "u1000" and c in allowed for c in Spec.names(d))
+
+    @staticmethod
+    def useless(d, diags, allowed, dev=()):
+        return (d.cmd == "ignore" and Spec.wf(d)
+                and not any(Spec.suppresses(d, g[0], g[1], g[3]) for g in diags)
+                and Spec.could_have_matched(d, allowed, dev))
+
+    @staticmethod
+    def filter(use_success, allowed, diags, dirs, dev=()):
         """diags: (file, line, col, cat, msg). Returns (kept, added); entries
         (file, line, col, cat, msg, sev)."""
         ds = [g for g in diags if (not use_success) or g[3].lower() in allowed]
@@ -111,7 +144,7 @@ class Spec:
             if Spec.malformed(d):
                 added.append((d.npos[0], d.npos[1], d.npos[2], "compile", MALFORMED, "e"))
         for d in dirs:
-            if Spec.useless(d, ds, allowed):
+            if Spec.useless(d, ds, allowed, dev):
                 added.append((d.dpos[0], d.dpos[1], d.dpos[2], "staticcheck", USELESS, "e"))
         return kept, added
 
@@ -306,21 +339,15 @@ def classify_fi(allowed, diags, dirs, got, use_success):
     if got is None:
         return ("fi-output", "unparseable output")
     gk, ga = got[:len(kept)], got[len(kept):]
+    if len(got) >= len(kept) and gk == kept and sorted(ga) == sorted(added):
+        return None
+    for dev in DEVIATIONS[:1]:
+        k2, a2 = Spec.filter(use_success, allowed, diags, dirs, dev=(dev,))
+        if gk == k2 and sorted(ga) == sorted(a2):
+            return (dev, "%s: expected added problems %r, got %r" % (KEY_TEXT[dev], sorted(added), sorted(ga)))
     if len(got) < len(kept) or gk != kept:
         return ("suppression", "incoming diagnostics changed otherwise than the directives say: expected %r, got %r" % (kept, gk))
-    if sorted(ga) != sorted(added):
-        exp_u = sorted(x for x in added if x[3] == "staticcheck")
-        got_u = sorted(x for x in ga if x[3] == "staticcheck")
-        rest_equal = sorted(x for x in added if x[3] != "staticcheck") == sorted(x for x in ga if x[3] != "staticcheck")
-        if rest_equal and exp_u != got_u:
-            # which directives are affected?
-            bad = [d for d in dirs if d.cmd == "ignore" and Spec.wf(d)
-                   and ((d.dpos + ("staticcheck", USELESS, "e")) in exp_u) != ((d.dpos + ("staticcheck", USELESS, "e")) in got_u)]
-            if bad and all("u1000" in Spec.names(d) for d in bad):
-                return ("useless-u1000-order", "useless-directive report depends on where U1000 stands in the check list: expected %r, got %r" % (exp_u, got_u))
-            return ("useless", "useless-directive report wrong: expected %r, got %r" % (exp_u, got_u))
-        return ("added", "added problems wrong: expected %r, got %r" % (sorted(added), sorted(ga)))
-    return None
+    return ("added", "added problems wrong: expected %r, got %r" % (sorted(added), sorted(ga)))
 
 
 def inprocess(ctx, binp, rng, n_fi, n_small, fails, mism, hist):
@@ -438,7 +465,12 @@ CONFIGS = {
     "no-sa4000-s1002": "all,-ST1000,-ST1020,-ST1021,-ST1022,-SA4000,-S1002",
     "only-four": "SA4000,SA4006,U1000,ST1003",
     "no-u1000": "all,-ST1000,-ST1020,-ST1021,-ST1022,-U1000",
+    "all": "all,-ST1000,-ST1020,-ST1021,-ST1022",
 }
+# the doc-comment checks ST1000/ST102x are kept off: an inserted directive is itself a new
+# comment, which those checks read.  "all" is a superset of every other selection and is the
+# one used to calibrate which lines are insensitive to an inserted comment.
+CAL = "all"
 
 
 def allowed_for(cfg, all_checks, non_default):
@@ -528,7 +560,7 @@ def e2e_corpus():
             make_case("a.go", 20, "//lint:ignore ST1003 disabled check", cfg),
             make_case("a.go", 20, "//lint:ignore ST1003,U1000 disabled and U1000", cfg),
             make_case("a.go", 31, "//lint:ignore SA4006 one of two on the line", cfg),
-            make_case("a.go", 45, "//lint:ignore SA4000 two of the same check", cfg),
+            make_case("a.go", 46, "//lint:ignore SA4000 two of the same check", cfg),
             make_case("b.go", 21, "//lint:ignore SA4000 same line number as in a.go after the shift", cfg),
             make_case("a.go", 3, "//lint:file-ignore SA4000 whole file", cfg),
             make_case("a.go", 3, "//lint:file-ignore SA4000", cfg),
@@ -602,20 +634,23 @@ def e2e_predict_inputs(case, sources, base):
     return (f, L, col), (f, L + 1, col), non_u, u, b["allowed"]
 
 
-def e2e_oracle(case, sources, base):
+def e2e_oracle(case, sources, base, dev=()):
+    """-> kept, added, must_vanish, may_vanish (bool), u, dirs"""
     dpos, npos, non_u, u, allowed = e2e_predict_inputs(case, sources, base)
     parsed = py_parse_comment(case["text"])
     dirs = [Dir(parsed[0], parsed[1], dpos, npos)] if parsed else []
-    kept, added = Spec.filter(False, allowed, [p[:5] for p in non_u], dirs)
-    must_vanish = [p for p in u if any(Spec.suppresses(d, p[0], p[1], "U1000") for d in dirs)]
-    return kept, added, must_vanish, u, dirs
+    kept, added = Spec.filter(False, allowed, [p[:5] for p in non_u], dirs, dev)
+    must_vanish = [p for p in u if any(Spec.u1000_suppresses(d, p[0], p[1], dev) for d in dirs)]
+    # only a directive that makes the U1000 graph ignore something may change other U1000 problems
+    may_vanish = any(Spec.u1000_active(d, dev) for d in dirs)
+    return kept, added, must_vanish, may_vanish, u, dirs
 
 
 def sev_word(s):
     return {"e": "error", "w": "warning", "i": "ignored"}[s]
 
 
-def e2e_compare(kept, added, must_vanish, u, real, show_ignored):
+def e2e_compare(kept, added, must_vanish, may_vanish, u, real, show_ignored):
     """Compare a real report with a prediction. Returns list of discrepancy strings."""
     out = []
     exp = [(k[0], k[1], k[2], k[3], k[4], sev_word(k[5])) for k in kept if show_ignored or k[5] != "i"]
@@ -636,24 +671,20 @@ def e2e_compare(kept, added, must_vanish, u, real, show_ignored):
     for p in must_vanish:
         if p in real_u:
             out.append("U1000 problem named by the directive still reported: %r" % (p,))
+    if not may_vanish and pool:
+        out.append("U1000 problems disappeared although no well-formed directive names U1000: %r" % (pool,))
     return out
 
 
-def e2e_key(case, dirs, kept, added, must_vanish, u, real):
-    """Attribute an oracle failure of the end-to-end phase to a defect class."""
-    real_u = [p for p in real if p[3] == "U1000"]
-    real_non_u = sorted(p for p in real if p[3] != "U1000")
-    d = dirs[0] if dirs else None
-    if d is not None:
-        if Spec.malformed(d) and len(real_u) < len(u):
-            return "u1000-no-reason"
-        if any(p in real_u for p in must_vanish) and "U1000" not in (d.args[0].split(",") if d.args else []):
-            return "u1000-name-match"
-        if "u1000" in Spec.names(d):
-            exp_useless = [a for a in added if a[3] == "staticcheck"]
-            got_useless = [p for p in real_non_u if p[3] == "staticcheck"]
-            if len(exp_useless) != len(got_useless):
-                return "useless-u1000-order"
+def e2e_key(case, sources, base, r0, r1):
+    """Attribute an oracle failure of the end-to-end phase to a defect class: the smallest
+    set of deviations with which the statement reproduces both real reports."""
+    import itertools
+    for n in (1, 2, 3):
+        for dev in itertools.combinations(DEVIATIONS, n):
+            kept, added, mv, may, u, dirs = e2e_oracle(case, sources, base, dev)
+            if not e2e_compare(kept, added, mv, may, u, r0, False) and not e2e_compare(kept, added, mv, may, u, r1, True):
+                return "+".join(dev)
     return "e2e"
 
 
@@ -690,11 +721,32 @@ def end_to_end(ctx, sc, rng, n_cases, all_checks, non_default, fails, mism, hist
         raise vlib.HarnessError("fixed package no longer has the expected problems: %r" % base["default"]["problems"])
 
     if ctx.replay_cases is not None:
-        cases = [c for c in ctx.replay_cases if c.get("kind") == "e2e"]
-        for c in cases:
-            c.update(c.pop("case", {}))
+        cases = [dict(c["case"]) for c in ctx.replay_cases if c.get("kind") == "e2e"]
     else:
         cases = e2e_corpus() + e2e_generate(rng, n_cases, sources, base)
+
+    # calibration: a line qualifies as a placement only if an inserted neutral comment leaves
+    # the report unchanged (some analyzers, e.g. S1008, read comments)
+    spots = sorted(set((c["file"], c["line"]) for c in cases))
+
+    def calibrate(spot):
+        f, L = spot
+        files = {fn: list(src) for fn, src in sources.items()}
+        indent = len(files[f][L - 1]) - len(files[f][L - 1].lstrip("\t"))
+        files[f].insert(L - 1, "\t" * indent + "// c10 neutral comment")
+        d = materialise("cal_%s_%d" % (f, L), files)
+        r = run_staticcheck(ctx, sc, d, CONFIGS[CAL], False)
+        shutil.rmtree(d, ignore_errors=True)
+        exp = sorted((p[0], p[1] + 1 if (p[0] == f and p[1] >= L) else p[1]) + tuple(p[2:]) for p in base[CAL]["problems"])
+        return sorted(r) == exp
+
+    with ThreadPoolExecutor(max_workers=vlib.NCPU) as ex:
+        calib = dict(zip(spots, ex.map(calibrate, spots)))
+    sensitive = sorted(s for s, ok in calib.items() if not ok)
+    if sensitive:
+        ctx.notes.append("placements excluded because a neutral comment there already changes the report: %r" % sensitive)
+        cases = [c for c in cases if calib[(c["file"], c["line"])]]
+    hist["e2e:calibration-runs"] = len(spots)
 
     def one(ic):
         i, case = ic
@@ -732,9 +784,11 @@ def end_to_end(ctx, sc, rng, n_cases, all_checks, non_default, fails, mism, hist
         al = sorted(allowed)
         start = len(mlines2)
         mlines2.append(fi_line(False, al, [p[:5] for p in non_u], dirs))
-        for p in u:
-            if dirs:
+        if dirs:
+            for p in u:
                 mlines2.append("sup %s %s %d %s" % (enc_dir(dirs[0]), hexs(p[0]), p[1], hexs("U1000")))
+            # does the directive make the U1000 graph ignore anything at all: ask about its own node
+            mlines2.append("sup %s %s %d %s" % (enc_dir(dirs[0]), hexs(npos[0]), npos[1], hexs("U1000")))
         idx.append((start, len(mlines2), dirs))
     m_out = vlib.run_model(ctx, "C10", mlines2) if mlines2 else []
 
@@ -742,10 +796,10 @@ def end_to_end(ctx, sc, rng, n_cases, all_checks, non_default, fails, mism, hist
     samples = []
     for i, (case, (r0, r1)) in enumerate(zip(cases, results)):
         dpos, npos, non_u, u, allowed = e2e_predict_inputs(case, sources, base)
-        kept, added, must_vanish, _, dirs = e2e_oracle(case, sources, base)
+        kept, added, must_vanish, may_vanish, _, dirs = e2e_oracle(case, sources, base)
         problems = []
         for show, real in ((False, r0), (True, r1)):
-            for msg in e2e_compare(kept, added, must_vanish, u, real, show):
+            for msg in e2e_compare(kept, added, must_vanish, may_vanish, u, real, show):
                 problems.append(("-show-ignored: " if show else "default: ") + msg)
         # model
         start, end, mdirs = idx[i]
@@ -753,10 +807,11 @@ def end_to_end(ctx, sc, rng, n_cases, all_checks, non_default, fails, mism, hist
         if mo is None:
             raise vlib.HarnessError("model output unparseable: %s" % m_out[start][:200])
         mkept, madded = mo[:len(non_u)], mo[len(non_u):]
-        mvanish = [p for p, o in zip(u, m_out[start + 1:end]) if o == "1"] if mdirs else []
+        mvanish = [p for p, o in zip(u, m_out[start + 1:end - 1]) if o == "1"] if mdirs else []
+        mmay = m_out[end - 1] == "1" if mdirs else False
         mproblems = []
         for show, real in ((False, r0), (True, r1)):
-            mproblems += e2e_compare(mkept, madded, mvanish, u, real, show)
+            mproblems += e2e_compare(mkept, madded, mvanish, mmay, u, real, show)
         # histogram
         cls = "none"
         if dirs and Spec.malformed(dirs[0]):
@@ -782,7 +837,7 @@ def end_to_end(ctx, sc, rng, n_cases, all_checks, non_default, fails, mism, hist
                "expected_kept": [list(k) for k in kept], "expected_added": [list(a) for a in added],
                "expected_u1000_gone": [list(p) for p in must_vanish]}
         if problems:
-            rec["key"] = e2e_key(case, dirs, kept, added, must_vanish, u, r0)
+            rec["key"] = e2e_key(case, sources, base, r0, r1)
             rec["why"] = "; ".join(problems)
             fails.append(rec)
         elif mproblems:
@@ -804,6 +859,7 @@ KEY_TEXT = {
     "useless-u1000-order": "whether a useless line directive is reported depends on where U1000 stands in its check list",
     "u1000-no-reason": "a U1000 directive without a reason is reported as malformed but still suppresses U1000 problems",
     "u1000-name-match": "a directive whose name matches U1000 only as a glob or in another case does not suppress the U1000 problem on its line",
+    "u1000-no-reason+u1000-name-match": "U1000 directives: both the missing-reason and the name-matching deviation",
 }
 
 
@@ -824,6 +880,9 @@ def run(ctx):
 
     rng = vlib.SplitMix(ctx.seed).fork("C10")
     n_fi, n_small, n_e2e = (30000, 4000, 330) if ctx.quick else (300000, 40000, 6000)
+    # development knobs (defaults are the fixed case counts above)
+    n_e2e = int(os.environ.get("VERIF_C10_E2E", n_e2e))
+    n_fi = int(os.environ.get("VERIF_C10_FI", n_fi))
     fails, mism, hist = [], [], {}
     samples = []
     evals = 0
